@@ -55,6 +55,7 @@ Definition k_negatom : str := [97;116;111;109;58;45].   (* "atom:-" *)
 Definition k_sstr_minus : str := [115;115;116;114;58;45].   (* "sstr:-" *)
 Definition k_case : str := [99;97;115;101].
 Definition k_between : str := [98;101;116;119;101;101;110].
+Definition k_concat : str := [99;111;110;99;97;116].   (* "concat": std.concat = an f-string (process_concat) *)
 Definition k_is_null : str := [105;115;95;110;117;108;108].
 Definition k_is_not_null : str := [105;115;95;110;111;116;95;110;117;108;108].
 Definition k_op : str := [111;112;58].       (* "op:" + spelling *)
@@ -68,7 +69,7 @@ Definition c_negatom : construct := {| c_top := 0; c_sk := DAtom (AText [45%N; 4
 (* an s-string whose text starts with `-` (ExprOrSource::Source, strength sstring_strength) *)
 Definition c_sstr_minus : construct := {| c_top := 0; c_sk := DAtom (AText [45%N; 120%N]); c_declared := sstring_strength |}.
 
-(* std.concat never reaches translate_binary_operator (process_concat): not a construct of this model *)
+(* std.concat never reaches translate_binary_operator: process_concat, its own construct (k_concat below) *)
 Definition binary_constructs : list (str * construct) :=
   flat_map (fun no => if leqb (fst no) n_concat then [] else
                       match c_binary (snd no), sop_of_sqlbin (snd no) with
@@ -95,6 +96,9 @@ Definition template_constructs (dialect : str) : list (str * construct) :=
 Definition constructs (dialect : str) : list (str * construct) :=
   (k_atom, c_atom) :: (k_negatom, c_negatom) :: (k_sstr_minus, c_sstr_minus) :: (k_case, c_case 0 false) :: (k_is_null, c_isnull false) :: (k_is_not_null, c_isnull true) ::
   (match c_between with Some c => [(k_between, c)] | None => [] end) ++
+  (* process_concat at arity 3: site 0 = the first part, sites 1 and 2 = a middle and the last part (at any other arity
+     every further part has the site of part 1: same required strength, same position right of `||` / inside CONCAT( )) *)
+  (k_concat, c_concat (dialect_has_concat dialect) 3) ::
   binary_constructs ++ template_constructs dialect.
 
 (* ---- one (site, child) check ---- *)
@@ -158,6 +162,7 @@ Definition kind_name (dialect : str) (r : rexpr) : str :=
         | _ => generic
         end
       else if leqb name n_and_in then k_between
+      else if leqb name n_concat then k_concat
       else generic
   end.
 
@@ -266,11 +271,15 @@ Definition k_text_ends_with : str := k_tmpl ++ [116;101;120;116;46;101;110;100;1
 Local Close Scope N_scope.
 Definition concat_pattern_templates : list str := [k_text_starts_with; k_text_contains; k_text_ends_with].
 
-(* One class is left: F5 (a CHILD template that declares strength 100 over a top-level `*` or `/`).
+(* Two classes are left: F5 (a CHILD template that declares strength 100 over a top-level `*` or `/`) and C02-N7 (the
+   PARENT is an f-string on a dialect that spells concatenation `||`).
    F2 (between), F4 (comparison chain), F30 (multiply), C02-N2 (equality under comparison), C02-N3 (regexp),
    C02-N6 and C02-N5 (LIKE templates) were repaired in /repo: their triples are not excused, so a regression breaks
    sql_compat.  (The dialect argument is kept: a class may be dialect-specific, as C02-N5 was.) *)
-Definition known_triple (dialect : str) (t : triple) : bool := mem (snd t) dishonest_templates.
+(* C02-N7: process_concat never parenthesises a part; on a dialect without a CONCAT function the parts sit next to `||` *)
+Definition known_concat_part (dialect : str) (t : triple) : bool :=
+  negb (dialect_has_concat dialect) && leqb (fst (fst t)) k_concat.
+Definition known_triple (dialect : str) (t : triple) : bool := mem (snd t) dishonest_templates || known_concat_part dialect t.
 
 Definition sql_compat (dialect : str) : bool :=
   forallb (fun tv => known_triple dialect (fst tv) || verdict_ok (snd tv)) (all_triples dialect).
